@@ -19,6 +19,7 @@ MODULES = [
     _mod("src/nested/mod.rs", "../verif/verif_uniq.rs", "verif_uniq"),
     _mod("src/nested/mod.rs", "../verif/verif_nb.rs", "verif_nb"),
     _mod("src/nested/mod.rs", "../verif/verif_ring.rs", "verif_ring"),
+    _mod("src/nested/mod.rs", "../verif/verif_edge.rs", "verif_edge"),
 ]
 
 def _c(file, anchor, *attrs, **kw):
